@@ -612,6 +612,12 @@ def _is_compatible(program: Loop, min_len: int, quantum: int, sample_rate: TimeT
             return _CompatibilityLevel.action_required
 
 
+def _contains_volatile_repetition(program: Loop) -> bool:
+    """True if a descendant (not program itself) has a volatile repetition count"""
+    return any(sub_program.volatile_repetition is not None or _contains_volatile_repetition(sub_program)
+               for sub_program in program)
+
+
 def _make_compatible(program: Loop, min_len: int, quantum: int, sample_rate: TimeType) -> None:
     if program.is_leaf():
         program.waveform = to_waveform(program.copy_tree_structure())
@@ -630,6 +636,10 @@ def _make_compatible(program: Loop, min_len: int, quantum: int, sample_rate: Tim
                 # we need to concatenate all children and unroll
                 new_repetition_definition = 1
 
+            if _contains_volatile_repetition(program):
+                # the concatenated waveform is sampled with the current value of the count
+                warnings.warn("_make_compatible concatenates a sub-program with a volatile repetition count "
+                              "which drops volatility.", category=VolatileModificationWarning)
             program.waveform = to_waveform(program.copy_tree_structure())
             program.repetition_definition = new_repetition_definition
             program[:] = []
